@@ -1,12 +1,14 @@
 use crate::engine::Tier;
 use crate::sut::Sut;
 
+pub mod c02;
 pub mod c04;
 pub mod c11;
 pub mod c17;
 pub mod c18;
 pub mod c19;
 pub mod c20;
+pub mod layouts;
 
 macro_rules! dispatch {
     ($($id:literal => $m:ident),* $(,)?) => {
@@ -45,6 +47,7 @@ macro_rules! dispatch {
 }
 
 dispatch! {
+    "C02" => c02,
     "C04" => c04,
     "C11" => c11,
     "C17" => c17,
